@@ -92,7 +92,10 @@ def save(a, mode):
     f = io.StringIO()
     import contextlib
     with contextlib.redirect_stdout(io.StringIO()):
-        a.save_p1_cif(f, use_fract_coords=(mode == "fract"))
+        if len(a) % 3 == 1:
+            a.save_p1_cif(f, "structure", mode == "fract")            # by position, documented order
+        else:
+            a.save_p1_cif(f, use_fract_coords=(mode == "fract"))
     return f.getvalue()
 
 
